@@ -150,6 +150,7 @@ func ruleC13For(c *Ctx, sub *ssa.Function, do, rr, pm *ssa.Call, first bool) {
 		okResp = okF && okA
 	}
 	c.obI("R13.2", rr, "reader-gets-this-response", okResp, "the reader is handed r.response(res) for the response of this very exchange", "")
+	ruleDrainingReadTransparent(c, "R13.2")
 	for _, fn := range p.LibFuncs("rt/client") {
 		for _, in := range instrs(fn) {
 			st, ok := in.(*ssa.Store)
